@@ -69,6 +69,12 @@ def run_rule(case, V=None, deadline=20.0, fork=False):
             e1, r1 = make_elicitor(V, case.get("memoize", True), case.get("ezi", True), integer=True)
             e2, r2 = make_elicitor(case["V2"] if "V2x" not in case else case["V2x"], case.get("memoize", True), case.get("ezi", True), integer=True)
             d = DoubleLambdaTSF(case["k"], case["k2"], zero_indexed=case.get("zi", True))
+            for pre in case.get("prelude", []):
+                try:
+                    pa, _ = make_elicitor(pre["V"], True, True, integer=True); pb, _ = make_elicitor(pre["V2"], True, True, integer=True)
+                    d.get_simulated_cardinal_profiles(StrictCompleteProfile.of(np.array(pre["P"], dtype=np.int64)), StrictCompleteProfile.of(np.array(pre["P2"], dtype=np.int64)), pa, pb)
+                except Exception:  # noqa
+                    pass
             vts = d.get_simulated_cardinal_profiles(prof, prof2, e1, e2)
             res.update(vt=np.asarray(vts[0]).tolist(), vt2=np.asarray(vts[1]).tolist(), trace=r1.trace, trace2=r2.trace,
                        count=e1.elicitation_count, count2=e2.elicitation_count)
@@ -76,20 +82,22 @@ def run_rule(case, V=None, deadline=20.0, fork=False):
                 e1b, _ = make_elicitor(V, True, True, integer=True); e2b, _ = make_elicitor(case["V2"], True, True, integer=True)
                 res["out"] = [[int(a), int(b)] for a, b in d.scf(prof, prof2, e1b, e2b)]
             return res
+        if rule == "KARV": r = KARV(k=case["k"], tie_breaker=case.get("tb", "accept"), zero_indexed=case.get("zi", True))
+        elif rule == "TSF": r = LambdaTSF(lambda_=case["k"], zero_indexed=case.get("zi", True))
+        elif rule == "M2Q": r = MatchTwoQueries(zero_indexed=case.get("zi", True))
+        else: r = LambdaPRV(lambda_=case["k"], tie_breaker=case.get("tb", "accept"), zero_indexed=case.get("zi", True))
+        def sim(p_, e_):
+            return r.score(p_, e_) if rule == "PRV" else r.get_simulated_cardinal_profile(p_, e_)
+        for pre in case.get("prelude", []):        # the same rule object is first used on other instances
+            try:
+                pe, _ = make_elicitor(pre["V"], True, True)
+                sim(StrictCompleteProfile.of(np.array(pre["P"], dtype=np.int64)), pe)
+            except Exception:  # noqa
+                pass
         el, rec = make_elicitor(V, case.get("memoize", True), case.get("ezi", True))
-        if rule == "KARV":
-            r = KARV(k=case["k"], tie_breaker=case.get("tb", "accept"), zero_indexed=case.get("zi", True))
-            vt = r.get_simulated_cardinal_profile(prof, el)
-        elif rule == "TSF":
-            r = LambdaTSF(lambda_=case["k"], zero_indexed=case.get("zi", True))
-            vt = r.get_simulated_cardinal_profile(prof, el)
-        elif rule == "M2Q":
-            r = MatchTwoQueries(zero_indexed=case.get("zi", True))
-            vt = r.get_simulated_cardinal_profile(prof, el)
+        vt = sim(prof, el)
+        if rule == "M2Q":
             res["rootn"] = [int(x) for x in root_n_serial_dictatorship(prof)]
-        elif rule == "PRV":
-            r = LambdaPRV(lambda_=case["k"], tie_breaker=case.get("tb", "accept"), zero_indexed=case.get("zi", True))
-            vt = r.score(prof, el)
         res.update(vt=np.asarray(vt).tolist(), trace=list(rec.trace), count=el.elicitation_count)
         if case.get("want_out"):
             el2, _ = make_elicitor(V, True, True)
